@@ -1,18 +1,17 @@
-// Unit objlayers: the layered object representation.  Extracted verbatim from program/data.rs:
-// ObjectData (struct + get_layer, find_field, has_field, get_fields_order,
-// get_visible_fields_order, has_visible_field), ObjectLayer, ObjectField, ObjectFieldData,
-// Program::{extend_object, object_with_field_removed}, extend_object_clone_field / _layer.
-// (std.objectRemoveKey's own decision logic is in unit rmkey.)  BTreeMap / btree_map::Entry are bound to a
-// two-slot ordered map through a local `std` module (shim/btshim.rs).
-// Hand-written environment: Gc (Rc), interned strings (small ids, ordered by id), FHashMap bound
-// to a two-slot map (shim/slotmap.rs; the extracted text uses only get / iter / collect / default on
-// it; an association list with a symbolic length made every harness of this unit, the canary included,
-// exceed 14 GB - measured).
+// Unit objlayers: field lookup in the layered object representation.  Extracted verbatim from
+// program/data.rs: ObjectData (struct + get_layer, find_field, has_field, has_visible_field), ObjectLayer,
+// ObjectField, ObjectFieldData.
+// NOT in this unit (each tried, each beyond CBMC here - DESIGN section 11): get_fields_order (field list of
+// manifestation / objectFields; one-layer objects did not finish in 5 min, two-layer ones needed > 20 GB, with
+// the real BTreeMap and with a two-slot replacement alike), Program::extend_object and
+// object_with_field_removed (cloning layers: the SAT instance exceeded 20 GB for 1 + 1 layers even with
+// concrete entry kinds).  For those two, what remains is the frame obligation F-objfresh (the combined object
+// starts unchecked, no cached field list) and unit rmkey (std.objectRemoveKey's own decision logic).
+// Hand-written environment: Gc (raw pointers), interned strings (small ids, ordered by id), FHashMap bound to a
+// two-slot map (shim/slotmap.rs; the extracted text uses only get on it).
 #![allow(dead_code, unused)]
 mod u {
-//@include shim/btshim.rs
 use std::cell::{Cell, OnceCell, RefCell};
-use std::collections::BTreeMap;
 use std::marker::PhantomData;
 use std::rc::Rc;
 //@include shim/slotmap.rs
@@ -49,13 +48,10 @@ impl<'a, 'p> Evaluator<'a, 'p> {
 
 // ---- extracted, verbatim -------------------------------------------------------------------
 //@extract file=rsjsonnet-lang/src/program/data.rs item=struct:ObjectData
-//@extract file=rsjsonnet-lang/src/program/data.rs impl=ObjectData methods=new_empty,get_layer,find_field,has_field,get_fields_order,get_visible_fields_order,has_visible_field
+//@extract file=rsjsonnet-lang/src/program/data.rs impl=ObjectData methods=new_empty,get_layer,find_field,has_field,has_visible_field
 //@extract file=rsjsonnet-lang/src/program/data.rs item=struct:ObjectLayer
 //@extract file=rsjsonnet-lang/src/program/data.rs item=enum:ObjectField
 //@extract file=rsjsonnet-lang/src/program/data.rs item=struct:ObjectFieldData
-//@extract file=rsjsonnet-lang/src/program/data.rs impl=Program methods=extend_object,object_with_field_removed
-//@extract file=rsjsonnet-lang/src/program/data.rs item=fn:extend_object_clone_field
-//@extract file=rsjsonnet-lang/src/program/data.rs item=fn:extend_object_clone_layer
 
 #[cfg(kani)]
 mod vharness {
@@ -148,233 +144,6 @@ mod vharness {
     #[kani::proof]
     #[kani::unwind(7)]
     fn lookup_and_visibility_contract_n3() { lookup_and_visibility_contract_at(3); }
-
-    fn fields_order_agrees_with_lookup_at(n: usize) { let (n, es, os, o) = any_object(n, 3); fields_order_check(n, es, os, o); }
-    /// entry of a CONCRETE kind (0 absent, 1 defined with any visibility, 2 remove marker of any depth)
-    fn entry_of_kind(k: u8, maxd: usize) -> E { match k { 0 => E::Absent, 1 => E::N(any_vis()), _ => { let d: usize = kani::any(); kani::assume(d <= maxd); E::R(d) } } }
-    /// three-layer object whose first name has the given per-layer kinds; the second name is defined (any visibility) in the bottom layer only
-    fn fields_order_kinds(k0: u8, k1: u8, k2: u8) {
-        let es = [entry_of_kind(k0, 3), entry_of_kind(k1, 3), entry_of_kind(k2, 3), E::Absent];
-        let os = [E::Absent, E::Absent, E::N(any_vis()), E::Absent];
-        let o: &'static ObjectData<'static> = Box::leak(Box::new(object(3, &es, &os)));
-        fields_order_check(3, es, os, o);
-    }
-    fn fields_order_check(n: usize, es: [E; MAXL], os: [E; MAXL], o: &'static ObjectData<'static>) {
-        //@known D7 kani::assume(!d7_class(n, &es) && !d7_class(n, &os));
-        let order = o.get_fields_order();
-        let mut seen_name = false; let mut vis_name = V::Hidden;
-        let mut seen_other = false; let mut vis_other = V::Hidden;
-        let mut i = 0;
-        while i < order.len() {
-            let (nm, v) = order[i];
-            if nm == NAME { assert!(!seen_name, "C07,C05:objlayers:each-name-listed-once"); seen_name = true; vis_name = v; }
-            else if nm == OTHER { assert!(!seen_other, "C07,C05:objlayers:each-name-listed-once"); seen_other = true; vis_other = v; }
-            else { assert!(false, "C07,C05:objlayers:only-defined-names-are-listed"); }
-            if i > 0 { assert!(order[i - 1].0 < nm, "C07,C05:objlayers:field-list-is-strictly-sorted"); }
-            i += 1;
-        }
-        assert!(seen_name == o.has_field(0, NAME), "C07,C05:objlayers:listed-iff-lookup-finds-the-field");
-        assert!(seen_other == o.has_field(0, OTHER), "C07,C05:objlayers:listed-iff-lookup-finds-the-field");
-        if seen_name { assert!((vis_name != V::Hidden) == o.has_visible_field(NAME), "C07,C05:objlayers:listed-visibility-agrees-with-objectHas"); }
-        if seen_other { assert!((vis_other != V::Hidden) == o.has_visible_field(OTHER), "C07,C05:objlayers:listed-visibility-agrees-with-objectHas"); }
-    }
-    //@harness props=C07,C05 strength=bounded bound="objects of 1..3 layers, two field names, every combination of per-layer entries {absent, :, ::, :::, removed(d<=3)}; this instance: exactly 1 layer" clause="the field list used by manifestation, std.length, objectFields(All) (get_fields_order) contains a name exactly when field lookup (in, objectHasAll, indexing) finds it, marks it hidden exactly when objectHas says it is not visible, is strictly sorted by name and lists each name once" timeout=900 replay=objlayers known=D7
-    #[kani::proof]
-    #[kani::unwind(7)]
-    fn fields_order_agrees_with_lookup_n1() { fields_order_agrees_with_lookup_at(1); }
-    //@harness props=C07,C05 strength=bounded bound="objects of 1..3 layers, two field names, every combination of per-layer entries {absent, :, ::, :::, removed(d<=3)}; this instance: exactly 2 layers" clause="the field list used by manifestation, std.length, objectFields(All) (get_fields_order) contains a name exactly when field lookup (in, objectHasAll, indexing) finds it, marks it hidden exactly when objectHas says it is not visible, is strictly sorted by name and lists each name once" timeout=900 replay=objlayers known=D7
-    #[kani::proof]
-    #[kani::unwind(7)]
-    fn fields_order_agrees_with_lookup_n2() { fields_order_agrees_with_lookup_at(2); }
-    //@harness props=C07,C05 strength=bounded tier=thorough bound="three-layer objects whose first name is, top to bottom, absent / absent / absent (any visibility, any remove depth <= 3) and whose second name is defined in the bottom layer; the 27 instances cover every kind vector" clause="the field list used by manifestation, std.length, objectFields(All) (get_fields_order) contains a name exactly when field lookup (in, objectHasAll, indexing) finds it, marks it hidden exactly when objectHas says it is not visible, is strictly sorted by name and lists each name once" timeout=900 replay=objlayers known=D7
-    #[kani::proof]
-    #[kani::unwind(7)]
-    fn fields_order_n3_k000() { fields_order_kinds(0, 0, 0); }
-    //@harness props=C07,C05 strength=bounded tier=thorough bound="three-layer objects whose first name is, top to bottom, absent / absent / defined (any visibility, any remove depth <= 3) and whose second name is defined in the bottom layer; the 27 instances cover every kind vector" clause="the field list used by manifestation, std.length, objectFields(All) (get_fields_order) contains a name exactly when field lookup (in, objectHasAll, indexing) finds it, marks it hidden exactly when objectHas says it is not visible, is strictly sorted by name and lists each name once" timeout=900 replay=objlayers known=D7
-    #[kani::proof]
-    #[kani::unwind(7)]
-    fn fields_order_n3_k001() { fields_order_kinds(0, 0, 1); }
-    //@harness props=C07,C05 strength=bounded tier=thorough bound="three-layer objects whose first name is, top to bottom, absent / absent / removed (any visibility, any remove depth <= 3) and whose second name is defined in the bottom layer; the 27 instances cover every kind vector" clause="the field list used by manifestation, std.length, objectFields(All) (get_fields_order) contains a name exactly when field lookup (in, objectHasAll, indexing) finds it, marks it hidden exactly when objectHas says it is not visible, is strictly sorted by name and lists each name once" timeout=900 replay=objlayers known=D7
-    #[kani::proof]
-    #[kani::unwind(7)]
-    fn fields_order_n3_k002() { fields_order_kinds(0, 0, 2); }
-    //@harness props=C07,C05 strength=bounded tier=thorough bound="three-layer objects whose first name is, top to bottom, absent / defined / absent (any visibility, any remove depth <= 3) and whose second name is defined in the bottom layer; the 27 instances cover every kind vector" clause="the field list used by manifestation, std.length, objectFields(All) (get_fields_order) contains a name exactly when field lookup (in, objectHasAll, indexing) finds it, marks it hidden exactly when objectHas says it is not visible, is strictly sorted by name and lists each name once" timeout=900 replay=objlayers known=D7
-    #[kani::proof]
-    #[kani::unwind(7)]
-    fn fields_order_n3_k010() { fields_order_kinds(0, 1, 0); }
-    //@harness props=C07,C05 strength=bounded tier=thorough bound="three-layer objects whose first name is, top to bottom, absent / defined / defined (any visibility, any remove depth <= 3) and whose second name is defined in the bottom layer; the 27 instances cover every kind vector" clause="the field list used by manifestation, std.length, objectFields(All) (get_fields_order) contains a name exactly when field lookup (in, objectHasAll, indexing) finds it, marks it hidden exactly when objectHas says it is not visible, is strictly sorted by name and lists each name once" timeout=900 replay=objlayers known=D7
-    #[kani::proof]
-    #[kani::unwind(7)]
-    fn fields_order_n3_k011() { fields_order_kinds(0, 1, 1); }
-    //@harness props=C07,C05 strength=bounded bound="three-layer objects whose first name is, top to bottom, absent / defined / removed (any visibility, any remove depth <= 3) and whose second name is defined in the bottom layer; the 27 instances cover every kind vector" clause="the field list used by manifestation, std.length, objectFields(All) (get_fields_order) contains a name exactly when field lookup (in, objectHasAll, indexing) finds it, marks it hidden exactly when objectHas says it is not visible, is strictly sorted by name and lists each name once" timeout=900 replay=objlayers known=D7
-    #[kani::proof]
-    #[kani::unwind(7)]
-    fn fields_order_n3_k012() { fields_order_kinds(0, 1, 2); }
-    //@harness props=C07,C05 strength=bounded tier=thorough bound="three-layer objects whose first name is, top to bottom, absent / removed / absent (any visibility, any remove depth <= 3) and whose second name is defined in the bottom layer; the 27 instances cover every kind vector" clause="the field list used by manifestation, std.length, objectFields(All) (get_fields_order) contains a name exactly when field lookup (in, objectHasAll, indexing) finds it, marks it hidden exactly when objectHas says it is not visible, is strictly sorted by name and lists each name once" timeout=900 replay=objlayers known=D7
-    #[kani::proof]
-    #[kani::unwind(7)]
-    fn fields_order_n3_k020() { fields_order_kinds(0, 2, 0); }
-    //@harness props=C07,C05 strength=bounded tier=thorough bound="three-layer objects whose first name is, top to bottom, absent / removed / defined (any visibility, any remove depth <= 3) and whose second name is defined in the bottom layer; the 27 instances cover every kind vector" clause="the field list used by manifestation, std.length, objectFields(All) (get_fields_order) contains a name exactly when field lookup (in, objectHasAll, indexing) finds it, marks it hidden exactly when objectHas says it is not visible, is strictly sorted by name and lists each name once" timeout=900 replay=objlayers known=D7
-    #[kani::proof]
-    #[kani::unwind(7)]
-    fn fields_order_n3_k021() { fields_order_kinds(0, 2, 1); }
-    //@harness props=C07,C05 strength=bounded tier=thorough bound="three-layer objects whose first name is, top to bottom, absent / removed / removed (any visibility, any remove depth <= 3) and whose second name is defined in the bottom layer; the 27 instances cover every kind vector" clause="the field list used by manifestation, std.length, objectFields(All) (get_fields_order) contains a name exactly when field lookup (in, objectHasAll, indexing) finds it, marks it hidden exactly when objectHas says it is not visible, is strictly sorted by name and lists each name once" timeout=900 replay=objlayers known=D7
-    #[kani::proof]
-    #[kani::unwind(7)]
-    fn fields_order_n3_k022() { fields_order_kinds(0, 2, 2); }
-    //@harness props=C07,C05 strength=bounded tier=thorough bound="three-layer objects whose first name is, top to bottom, defined / absent / absent (any visibility, any remove depth <= 3) and whose second name is defined in the bottom layer; the 27 instances cover every kind vector" clause="the field list used by manifestation, std.length, objectFields(All) (get_fields_order) contains a name exactly when field lookup (in, objectHasAll, indexing) finds it, marks it hidden exactly when objectHas says it is not visible, is strictly sorted by name and lists each name once" timeout=900 replay=objlayers known=D7
-    #[kani::proof]
-    #[kani::unwind(7)]
-    fn fields_order_n3_k100() { fields_order_kinds(1, 0, 0); }
-    //@harness props=C07,C05 strength=bounded bound="three-layer objects whose first name is, top to bottom, defined / absent / defined (any visibility, any remove depth <= 3) and whose second name is defined in the bottom layer; the 27 instances cover every kind vector" clause="the field list used by manifestation, std.length, objectFields(All) (get_fields_order) contains a name exactly when field lookup (in, objectHasAll, indexing) finds it, marks it hidden exactly when objectHas says it is not visible, is strictly sorted by name and lists each name once" timeout=900 replay=objlayers known=D7
-    #[kani::proof]
-    #[kani::unwind(7)]
-    fn fields_order_n3_k101() { fields_order_kinds(1, 0, 1); }
-    //@harness props=C07,C05 strength=bounded tier=thorough bound="three-layer objects whose first name is, top to bottom, defined / absent / removed (any visibility, any remove depth <= 3) and whose second name is defined in the bottom layer; the 27 instances cover every kind vector" clause="the field list used by manifestation, std.length, objectFields(All) (get_fields_order) contains a name exactly when field lookup (in, objectHasAll, indexing) finds it, marks it hidden exactly when objectHas says it is not visible, is strictly sorted by name and lists each name once" timeout=900 replay=objlayers known=D7
-    #[kani::proof]
-    #[kani::unwind(7)]
-    fn fields_order_n3_k102() { fields_order_kinds(1, 0, 2); }
-    //@harness props=C07,C05 strength=bounded tier=thorough bound="three-layer objects whose first name is, top to bottom, defined / defined / absent (any visibility, any remove depth <= 3) and whose second name is defined in the bottom layer; the 27 instances cover every kind vector" clause="the field list used by manifestation, std.length, objectFields(All) (get_fields_order) contains a name exactly when field lookup (in, objectHasAll, indexing) finds it, marks it hidden exactly when objectHas says it is not visible, is strictly sorted by name and lists each name once" timeout=900 replay=objlayers known=D7
-    #[kani::proof]
-    #[kani::unwind(7)]
-    fn fields_order_n3_k110() { fields_order_kinds(1, 1, 0); }
-    //@harness props=C07,C05 strength=bounded bound="three-layer objects whose first name is, top to bottom, defined / defined / defined (any visibility, any remove depth <= 3) and whose second name is defined in the bottom layer; the 27 instances cover every kind vector" clause="the field list used by manifestation, std.length, objectFields(All) (get_fields_order) contains a name exactly when field lookup (in, objectHasAll, indexing) finds it, marks it hidden exactly when objectHas says it is not visible, is strictly sorted by name and lists each name once" timeout=900 replay=objlayers known=D7
-    #[kani::proof]
-    #[kani::unwind(7)]
-    fn fields_order_n3_k111() { fields_order_kinds(1, 1, 1); }
-    //@harness props=C07,C05 strength=bounded bound="three-layer objects whose first name is, top to bottom, defined / defined / removed (any visibility, any remove depth <= 3) and whose second name is defined in the bottom layer; the 27 instances cover every kind vector" clause="the field list used by manifestation, std.length, objectFields(All) (get_fields_order) contains a name exactly when field lookup (in, objectHasAll, indexing) finds it, marks it hidden exactly when objectHas says it is not visible, is strictly sorted by name and lists each name once" timeout=900 replay=objlayers known=D7
-    #[kani::proof]
-    #[kani::unwind(7)]
-    fn fields_order_n3_k112() { fields_order_kinds(1, 1, 2); }
-    //@harness props=C07,C05 strength=bounded bound="three-layer objects whose first name is, top to bottom, defined / removed / absent (any visibility, any remove depth <= 3) and whose second name is defined in the bottom layer; the 27 instances cover every kind vector" clause="the field list used by manifestation, std.length, objectFields(All) (get_fields_order) contains a name exactly when field lookup (in, objectHasAll, indexing) finds it, marks it hidden exactly when objectHas says it is not visible, is strictly sorted by name and lists each name once" timeout=900 replay=objlayers known=D7
-    #[kani::proof]
-    #[kani::unwind(7)]
-    fn fields_order_n3_k120() { fields_order_kinds(1, 2, 0); }
-    //@harness props=C07,C05 strength=bounded bound="three-layer objects whose first name is, top to bottom, defined / removed / defined (any visibility, any remove depth <= 3) and whose second name is defined in the bottom layer; the 27 instances cover every kind vector" clause="the field list used by manifestation, std.length, objectFields(All) (get_fields_order) contains a name exactly when field lookup (in, objectHasAll, indexing) finds it, marks it hidden exactly when objectHas says it is not visible, is strictly sorted by name and lists each name once" timeout=900 replay=objlayers known=D7
-    #[kani::proof]
-    #[kani::unwind(7)]
-    fn fields_order_n3_k121() { fields_order_kinds(1, 2, 1); }
-    //@harness props=C07,C05 strength=bounded tier=thorough bound="three-layer objects whose first name is, top to bottom, defined / removed / removed (any visibility, any remove depth <= 3) and whose second name is defined in the bottom layer; the 27 instances cover every kind vector" clause="the field list used by manifestation, std.length, objectFields(All) (get_fields_order) contains a name exactly when field lookup (in, objectHasAll, indexing) finds it, marks it hidden exactly when objectHas says it is not visible, is strictly sorted by name and lists each name once" timeout=900 replay=objlayers known=D7
-    #[kani::proof]
-    #[kani::unwind(7)]
-    fn fields_order_n3_k122() { fields_order_kinds(1, 2, 2); }
-    //@harness props=C07,C05 strength=bounded tier=thorough bound="three-layer objects whose first name is, top to bottom, removed / absent / absent (any visibility, any remove depth <= 3) and whose second name is defined in the bottom layer; the 27 instances cover every kind vector" clause="the field list used by manifestation, std.length, objectFields(All) (get_fields_order) contains a name exactly when field lookup (in, objectHasAll, indexing) finds it, marks it hidden exactly when objectHas says it is not visible, is strictly sorted by name and lists each name once" timeout=900 replay=objlayers known=D7
-    #[kani::proof]
-    #[kani::unwind(7)]
-    fn fields_order_n3_k200() { fields_order_kinds(2, 0, 0); }
-    //@harness props=C07,C05 strength=bounded tier=thorough bound="three-layer objects whose first name is, top to bottom, removed / absent / defined (any visibility, any remove depth <= 3) and whose second name is defined in the bottom layer; the 27 instances cover every kind vector" clause="the field list used by manifestation, std.length, objectFields(All) (get_fields_order) contains a name exactly when field lookup (in, objectHasAll, indexing) finds it, marks it hidden exactly when objectHas says it is not visible, is strictly sorted by name and lists each name once" timeout=900 replay=objlayers known=D7
-    #[kani::proof]
-    #[kani::unwind(7)]
-    fn fields_order_n3_k201() { fields_order_kinds(2, 0, 1); }
-    //@harness props=C07,C05 strength=bounded tier=thorough bound="three-layer objects whose first name is, top to bottom, removed / absent / removed (any visibility, any remove depth <= 3) and whose second name is defined in the bottom layer; the 27 instances cover every kind vector" clause="the field list used by manifestation, std.length, objectFields(All) (get_fields_order) contains a name exactly when field lookup (in, objectHasAll, indexing) finds it, marks it hidden exactly when objectHas says it is not visible, is strictly sorted by name and lists each name once" timeout=900 replay=objlayers known=D7
-    #[kani::proof]
-    #[kani::unwind(7)]
-    fn fields_order_n3_k202() { fields_order_kinds(2, 0, 2); }
-    //@harness props=C07,C05 strength=bounded tier=thorough bound="three-layer objects whose first name is, top to bottom, removed / defined / absent (any visibility, any remove depth <= 3) and whose second name is defined in the bottom layer; the 27 instances cover every kind vector" clause="the field list used by manifestation, std.length, objectFields(All) (get_fields_order) contains a name exactly when field lookup (in, objectHasAll, indexing) finds it, marks it hidden exactly when objectHas says it is not visible, is strictly sorted by name and lists each name once" timeout=900 replay=objlayers known=D7
-    #[kani::proof]
-    #[kani::unwind(7)]
-    fn fields_order_n3_k210() { fields_order_kinds(2, 1, 0); }
-    //@harness props=C07,C05 strength=bounded bound="three-layer objects whose first name is, top to bottom, removed / defined / defined (any visibility, any remove depth <= 3) and whose second name is defined in the bottom layer; the 27 instances cover every kind vector" clause="the field list used by manifestation, std.length, objectFields(All) (get_fields_order) contains a name exactly when field lookup (in, objectHasAll, indexing) finds it, marks it hidden exactly when objectHas says it is not visible, is strictly sorted by name and lists each name once" timeout=900 replay=objlayers known=D7
-    #[kani::proof]
-    #[kani::unwind(7)]
-    fn fields_order_n3_k211() { fields_order_kinds(2, 1, 1); }
-    //@harness props=C07,C05 strength=bounded tier=thorough bound="three-layer objects whose first name is, top to bottom, removed / defined / removed (any visibility, any remove depth <= 3) and whose second name is defined in the bottom layer; the 27 instances cover every kind vector" clause="the field list used by manifestation, std.length, objectFields(All) (get_fields_order) contains a name exactly when field lookup (in, objectHasAll, indexing) finds it, marks it hidden exactly when objectHas says it is not visible, is strictly sorted by name and lists each name once" timeout=900 replay=objlayers known=D7
-    #[kani::proof]
-    #[kani::unwind(7)]
-    fn fields_order_n3_k212() { fields_order_kinds(2, 1, 2); }
-    //@harness props=C07,C05 strength=bounded tier=thorough bound="three-layer objects whose first name is, top to bottom, removed / removed / absent (any visibility, any remove depth <= 3) and whose second name is defined in the bottom layer; the 27 instances cover every kind vector" clause="the field list used by manifestation, std.length, objectFields(All) (get_fields_order) contains a name exactly when field lookup (in, objectHasAll, indexing) finds it, marks it hidden exactly when objectHas says it is not visible, is strictly sorted by name and lists each name once" timeout=900 replay=objlayers known=D7
-    #[kani::proof]
-    #[kani::unwind(7)]
-    fn fields_order_n3_k220() { fields_order_kinds(2, 2, 0); }
-    //@harness props=C07,C05 strength=bounded bound="three-layer objects whose first name is, top to bottom, removed / removed / defined (any visibility, any remove depth <= 3) and whose second name is defined in the bottom layer; the 27 instances cover every kind vector" clause="the field list used by manifestation, std.length, objectFields(All) (get_fields_order) contains a name exactly when field lookup (in, objectHasAll, indexing) finds it, marks it hidden exactly when objectHas says it is not visible, is strictly sorted by name and lists each name once" timeout=900 replay=objlayers known=D7
-    #[kani::proof]
-    #[kani::unwind(7)]
-    fn fields_order_n3_k221() { fields_order_kinds(2, 2, 1); }
-    //@harness props=C07,C05 strength=bounded tier=thorough bound="three-layer objects whose first name is, top to bottom, removed / removed / removed (any visibility, any remove depth <= 3) and whose second name is defined in the bottom layer; the 27 instances cover every kind vector" clause="the field list used by manifestation, std.length, objectFields(All) (get_fields_order) contains a name exactly when field lookup (in, objectHasAll, indexing) finds it, marks it hidden exactly when objectHas says it is not visible, is strictly sorted by name and lists each name once" timeout=900 replay=objlayers known=D7
-    #[kani::proof]
-    #[kani::unwind(7)]
-    fn fields_order_n3_k222() { fields_order_kinds(2, 2, 2); }
-    /// witness class of known finding D7: a `:` definition above a remove marker above a deeper definition
-    fn d7_class(n: usize, es: &[E; MAXL]) -> bool {
-        let mut i = 0; let mut default_seen = false;
-        while i < n { match es[i] { E::N(V::Default) => default_seen = true, E::N(_) => return false, E::R(_) => return default_seen, E::Absent => {} } i += 1; }
-        false
-    }
-
-    fn extend_object_concatenates_layers_at(na: usize, nb: usize) {
-        let (na, ea, oa, a0) = any_object(na, 2);
-        let (nb, eb, ob, b0) = any_object(nb, 2);
-        // any layer of either operand may carry an object-level assert; both operands have been checked already
-        let fa: [bool; 2] = [kani::any(), kani::any()]; let fb: [bool; 2] = [kani::any(), kani::any()];
-        let with_asserts = |n: usize, es: &[E; MAXL], os: &[E; MAXL], f: &[bool; 2]| -> &'static ObjectData<'static> {
-            let mut supers = Vec::new(); if n == 2 { supers.push(layer_a(es[1], os[1], f[1])); }
-            Box::leak(Box::new(ObjectData { self_layer: layer_a(es[0], os[0], f[0]), super_layers: supers, fields_order: OnceCell::new(), asserts_checked: Cell::new(true) }))
-        };
-        let a = with_asserts(na, &ea, &oa, &fa); let b = with_asserts(nb, &eb, &ob, &fb);
-        let mut p = Program { str_interner: StrInterner, _p: PhantomData };
-        let r = p.extend_object(a, b);
-        let r = r.view();
-        // late binding of self: an assert of ANY layer speaks about the combined object, so it has to be
-        // checked again for the result (unless there is none)
-        let any_assert = fa[0] || (na == 2 && fa[1]) || fb[0] || (nb == 2 && fb[1]);
-        if any_assert { assert!(!r.asserts_checked.get(), "C07:objlayers:asserts-of-every-layer-are-rechecked-against-the-combined-object"); }
-        let mut k = 0;
-        while k < na + nb { let want = if k < nb { fb[k] } else { fa[k - nb] }; assert!(r.get_layer(k).asserts.len() == want as usize, "C07:objlayers:extend-keeps-the-asserts-of-every-layer"); k += 1; }
-        assert!(1 + r.super_layers.len() == na + nb, "C07:objlayers:extend-has-all-layers-of-both");
-        let mut i = 0;
-        while i < na + nb {
-            let l = r.get_layer(i);
-            let (we, wo) = if i < nb { (eb[i], ob[i]) } else { (ea[i - nb], oa[i - nb]) };
-            assert!(entry_of(l, NAME) == we && entry_of(l, OTHER) == wo, "C07:objlayers:extend-is-rhs-layers-then-lhs-layers-entries-preserved");
-            i += 1;
-        }
-        assert!(r.fields_order.get().is_none(), "C07:objlayers:extend-does-not-inherit-a-cached-field-list");
-    }
-    //@harness props=C07 strength=bounded bound="A and B of 1..2 layers each, two names, every entry combination; this instance: A and B of 1 layer each" clause="A + B: the layers of the result are B's layers followed by A's layers, every entry (visibility, remove depth) preserved - so the per-name view of (A + B) + C and A + (B + C) is the same list C ++ B ++ A, and {} + A, A + {} have A's view (an empty layer defines nothing); the object-level asserts of every layer are kept and, if there is any, the result is marked unchecked so that they run against the combined object (late-bound self)" replay=objlayers timeout=900
-    #[kani::proof]
-    #[kani::unwind(7)]
-    fn extend_object_concatenates_layers_1_1() { extend_object_concatenates_layers_at(1, 1); }
-    //@harness props=C07 strength=bounded bound="A and B of 1..2 layers each, two names, every entry combination; this instance: A of 1 layer, B of 2" clause="A + B: the layers of the result are B's layers followed by A's layers, every entry (visibility, remove depth) preserved - so the per-name view of (A + B) + C and A + (B + C) is the same list C ++ B ++ A, and {} + A, A + {} have A's view (an empty layer defines nothing); the object-level asserts of every layer are kept and, if there is any, the result is marked unchecked so that they run against the combined object (late-bound self)" replay=objlayers timeout=900
-    #[kani::proof]
-    #[kani::unwind(7)]
-    fn extend_object_concatenates_layers_1_2() { extend_object_concatenates_layers_at(1, 2); }
-    //@harness props=C07 strength=bounded bound="A and B of 1..2 layers each, two names, every entry combination; this instance: A of 2 layers, B of 1" clause="A + B: the layers of the result are B's layers followed by A's layers, every entry (visibility, remove depth) preserved - so the per-name view of (A + B) + C and A + (B + C) is the same list C ++ B ++ A, and {} + A, A + {} have A's view (an empty layer defines nothing); the object-level asserts of every layer are kept and, if there is any, the result is marked unchecked so that they run against the combined object (late-bound self)" replay=objlayers timeout=900
-    #[kani::proof]
-    #[kani::unwind(7)]
-    fn extend_object_concatenates_layers_2_1() { extend_object_concatenates_layers_at(2, 1); }
-    //@harness props=C07 strength=bounded bound="A and B of 1..2 layers each, two names, every entry combination; this instance: A and B of 2 layers each" clause="A + B: the layers of the result are B's layers followed by A's layers, every entry (visibility, remove depth) preserved - so the per-name view of (A + B) + C and A + (B + C) is the same list C ++ B ++ A, and {} + A, A + {} have A's view (an empty layer defines nothing); the object-level asserts of every layer are kept and, if there is any, the result is marked unchecked so that they run against the combined object (late-bound self)" replay=objlayers timeout=900
-    #[kani::proof]
-    #[kani::unwind(7)]
-    fn extend_object_concatenates_layers_2_2() { extend_object_concatenates_layers_at(2, 2); }
-
-    fn remove_key_removes_exactly_the_named_field_at(n: usize) {
-        let (n, es, os, o) = any_object(n, 2);
-        //@known D7 kani::assume(!d7_class(n, &os));
-        let before_other = o.find_field(0, OTHER).map(|(i, _)| i);
-        let before_vis = o.has_visible_field(OTHER);
-        let mut p = Program { str_interner: StrInterner, _p: PhantomData };
-        let r = p.object_with_field_removed(o, NAME);
-        let r = r.view();
-        assert!(r.find_field(0, NAME).is_none() && !r.has_visible_field(NAME), "C07:objlayers:removed-field-no-longer-exists");
-        assert!(r.find_field(0, OTHER).map(|(i, _)| i) == before_other.map(|i| i + 1), "C07:objlayers:other-field-keeps-its-defining-layer");
-        assert!(r.has_visible_field(OTHER) == before_vis, "C07:objlayers:other-field-keeps-its-visibility");
-        let order = r.get_fields_order();
-        let mut i = 0; let mut other_listed = false;
-        while i < order.len() { assert!(order[i].0 != NAME, "C07:objlayers:removed-field-not-listed"); if order[i].0 == OTHER { other_listed = true; assert!((order[i].1 != V::Hidden) == before_vis, "C07:objlayers:other-field-listed-with-its-visibility"); } i += 1; }
-        assert!(other_listed == before_other.is_some(), "C07:objlayers:other-field-still-listed");
-    }
-    //@harness props=C07 strength=bounded bound="object of 1..3 layers, two names, every entry combination (remove depth <= 2); this instance: exactly 1 layer" clause="objectRemoveKey(o, name): afterwards the name does not exist (lookup, objectHas, field list), and the other name's existence, defining layer and visibility are exactly what they were" timeout=900 replay=objlayers known=D7
-    #[kani::proof]
-    #[kani::unwind(7)]
-    fn remove_key_removes_exactly_the_named_field_n1() { remove_key_removes_exactly_the_named_field_at(1); }
-    //@harness props=C07 strength=bounded bound="object of 1..3 layers, two names, every entry combination (remove depth <= 2); this instance: exactly 2 layers" clause="objectRemoveKey(o, name): afterwards the name does not exist (lookup, objectHas, field list), and the other name's existence, defining layer and visibility are exactly what they were" timeout=900 replay=objlayers known=D7
-    #[kani::proof]
-    #[kani::unwind(7)]
-    fn remove_key_removes_exactly_the_named_field_n2() { remove_key_removes_exactly_the_named_field_at(2); }
-    //@harness props=C07 strength=bounded bound="object of 1..3 layers, two names, every entry combination (remove depth <= 2); this instance: exactly 3 layers" clause="objectRemoveKey(o, name): afterwards the name does not exist (lookup, objectHas, field list), and the other name's existence, defining layer and visibility are exactly what they were" timeout=900 replay=objlayers known=D7
-    #[kani::proof]
-    #[kani::unwind(7)]
-    fn remove_key_removes_exactly_the_named_field_n3() { remove_key_removes_exactly_the_named_field_at(3); }
 
     fn any_present(maxd: usize) -> E { let k: u8 = kani::any(); if k % 2 == 0 { E::N(any_vis()) } else { let d: usize = kani::any(); kani::assume(d <= maxd); E::R(d) } }
 
